@@ -19,7 +19,11 @@ RULE = ("K on generated tiny scenes (3-6 cells per axis, periodic/PEC/PMC/PML fa
         "with the model's zeros, plus the predicate 'every field / detector / (flagged) recording entry is +0.0 bit-exactly "
         "- a surviving NaN, inf or -0.0 is a violation -, materials bit-identical, shapes kept, reset idempotent'; the reuse "
         "sequences of (c) include `spoil` (the NaN/inf container a diverged run leaves behind) followed by a full run that "
-        "must reproduce the reference. non-trivial = a history with >= 2 pieces, a window hitting a bound, a dirty / spoiled "
+        "must reproduce the reference; (e) always: histories of 4+ `custom_fdtd_forward` calls mixing reset_container True/False "
+        "with record_detectors True/False on ONE container that was used before (the arrays returned by a recorded run_fdtd, "
+        "and those arrays spoiled with NaN/inf): after every call each detector-state row the call did not itself record must "
+        "be +0.0 bit-exactly (reset_container=True) resp. bit-identical to before (False); the per-row provenance (zero / kept "
+        "/ recorded) and the executed steps are also compared with the model (`cfrd`). non-trivial = a history with >= 2 pieces, a window hitting a bound, a dirty / spoiled "
         "start, or a reset input with a non-finite / negative entry.")
 
 
@@ -38,6 +42,7 @@ class Scene:
         self.cf = custom_fdtd_forward
         self._f = {r: jax.jit(lambda arr, s, e, r=r: custom_fdtd_forward(arr, o, cfg, key, r, record_detectors, s, e,
                                                                           show_progress=False)) for r in (False, True)}
+        self._frd = {}
         self._run = jax.jit(lambda arr: fdtdx.run_fdtd(arr, o, cfg, key, show_progress=False))
         self.i32 = lambda x: jnp.asarray(x, dtype=jnp.int32)
         self.record_detectors = record_detectors
@@ -54,6 +59,36 @@ class Scene:
         jax.block_until_ready(st[1].fields.E)
         jax.effects_barrier()
         return st, list(base.LOG)
+
+    def call(self, arr, start, stop, reset, rd):
+        """custom_fdtd_forward(reset_container=reset, record_detectors=rd, start, stop); returns (state, step log)"""
+        jax = self.j["jax"]
+        k = (bool(reset), bool(rd))
+        if k not in self._frd:
+            o, cfg, key, cf = self.o, self.cfg, self.key, self.cf
+            self._frd[k] = jax.jit(lambda arr, s, e: cf(arr, o, cfg, key, k[0], k[1], s, e, show_progress=False))
+        del base.LOG[:]
+        st = self._frd[k](arr, self.i32(start), self.i32(stop))
+        jax.block_until_ready(st[1].fields.E)
+        jax.effects_barrier()
+        return st, list(base.LOG)
+
+    def det_rows(self):
+        """per detector-state array (sorted by detector / key): for every row the time steps at which `forward` writes it.
+        Row-per-on-step detectors: row i <- its on-step; accumulating detectors (one row): all on-steps."""
+        out = []
+        for name in sorted(self.a.detector_states):
+            det = self.o[name]
+            on = [t for t, v in enumerate(np.asarray(det._is_on_at_time_step_arr)) if bool(v)]
+            for key in sorted(self.a.detector_states[name]):
+                n = int(self.a.detector_states[name][key].shape[0])
+                if n == len(on):
+                    idx = np.asarray(det._time_step_to_arr_idx)
+                    rows = [[t for t in on if int(idx[t]) == i] for i in range(n)]
+                else:                                   # accumulating state (PhasorDetector): every on-step adds to every row
+                    rows = [list(on) for _ in range(n)]
+                out.append((name, key, rows))
+        return out
 
     def run(self, arr):
         jax = self.j["jax"]
@@ -135,7 +170,7 @@ def spoil(j, arr, seed, specials=True):
     def sp(x):
         if not hasattr(x, "shape") or x.size < 4:
             return x
-        v = np.array(x, dtype=np.float64).ravel()
+        v = np.array(x, dtype=np.complex128 if np.iscomplexobj(np.asarray(x)) else np.float64).ravel()
         idx = rs.choice(v.size, size=4, replace=False)
         v[idx[0]], v[idx[1]], v[idx[2]], v[idx[3]] = np.nan, np.inf, -np.inf, -2.5
         return jnp.asarray(v.reshape(x.shape), dtype=x.dtype)
@@ -192,6 +227,79 @@ def reset_fails(j, arr, rd=True, rr=False):
     if any(canon_bits(x) != canon_bits(y) for x, y in zip(flat_container(j, r2)[:2], (f1, d1))):
         return "reset is not idempotent"
     return None
+
+
+# ------------------------------------------------------------------------------------ reset_container x record_detectors
+def row_bits(v):
+    """per row of a detector-state array: tuple of canonical bit patterns (complex arrays as interleaved re/im)"""
+    v = np.asarray(v)
+    if np.iscomplexobj(v):
+        v = np.stack([v.real, v.imag], axis=-1)
+    v = np.asarray(v, dtype=np.float64).reshape(v.shape[0], -1)
+    return [tuple(canon_bits(r)) for r in v]
+
+
+def executed(T, start, stop):
+    """steps a custom_fdtd_forward(start, stop) call executes (loop bound T)"""
+    return list(range(start, min(stop, start + T))) if stop > start else []
+
+
+def gen_flag_calls(rng, T, n):
+    """(reset_container, record_detectors, start, stop); the first two are always the unrecorded-reset probes"""
+    calls = [(True, False, 0, rng.randint(1, T)), (False, False, rng.randint(0, T - 1), T)]
+    while len(calls) < n:
+        a = rng.randint(0, T - 1)
+        calls.append((rng.chance(0.5), rng.chance(0.5), a, rng.randint(a, T)))
+    return calls
+
+
+def flags_fail(S, before, calls, seed=0, ctx=None, case=None):
+    """a history of custom_fdtd_forward calls with every reset_container x record_detectors combination on ONE container
+    that was used before (`before` = 'recorded': the arrays returned by a recorded run_fdtd; 'spoil': those arrays with
+    NaN / inf / negative entries).  After every call: each detector-state row that the call did not itself record must be
+    exactly +0.0 when reset_container=True and bit-identical to its value before the call otherwise.
+    With `ctx` the same calls are also compared with the model's provenance tags (K).  Returns a detail string or None."""
+    j = S.j
+    arr = S.run(S.a)[0][1]
+    if before == "spoil":
+        arr = spoil(j, arr, int(seed) + 17)
+    rows = S.det_rows()
+    row_tokens = [",".join(map(str, r)) if r else "-" for (_, _, rs) in rows for r in rs]
+    for k, (reset, rd, start, stop) in enumerate(calls):
+        prev = {(n, key): row_bits(arr.detector_states[n][key]) for (n, key, _) in rows}
+        st, log = S.call(arr, start, stop, reset, rd)
+        arr = st[1]
+        ex = executed(S.T, start, stop)
+        tags = []
+        for (n, key, rs) in rows:
+            now = row_bits(arr.detector_states[n][key])
+            for i, steps in enumerate(rs):
+                written = rd and any(t in ex for t in steps)
+                zero = all(b == "0000000000000000" for b in now[i])
+                same = now[i] == prev[(n, key)][i]
+                tags.append("r" if written else ("z" if (zero and reset) else f"k{len(tags)}" if (same and not reset) else
+                                                 "z!" if zero else "k!" if same else "r!"))
+                if written:
+                    continue
+                what = (f"call {k} of {calls} after a {before} run: custom_fdtd_forward(reset_container={reset}, "
+                        f"record_detectors={rd}, {start}->{stop})")
+                if reset and not zero:
+                    bad = [b for b in now[i] if b != "0000000000000000"]
+                    return (f"{what} left row {i} of detector state {n}/{key} non-zero although the call did not record it "
+                            f"({len(bad)} entries, e.g. {base_h2f(bad[0])!r}; stale={same})")
+                if not reset and not same:
+                    return f"{what} changed row {i} of detector state {n}/{key} although it neither reset nor recorded it"
+        if ctx is not None:
+            rep = ctx.driver.ask_many([f"cfrd {S.T} {start} {stop} {int(reset)} {int(rd)} " + " ".join(row_tokens)])[0]
+            want_t, want_tags = rep.split(" | ") if " | " in rep else (rep, "")
+            ctx.expect_equal("cfrd", dict(case, call=k), f"{int(st[0])} | {' '.join(tags)}", rep)
+            ctx.expect_equal("cfrd-steps", dict(case, call=k), log, ex)
+    return None
+
+
+def base_h2f(h):
+    from .common import h2f
+    return h2f(h)
 
 
 # ------------------------------------------------------------------------------------ property oracle
@@ -324,6 +432,24 @@ def k_scene(ctx, sc, idx):
         d = reuse_fails(S, ops, seed, ref=ref)
         if d:
             ctx.violation(case, d)
+    if idx == 0 or ctx.thorough:
+        k_flags(ctx, S, sc, idx)
+
+
+def k_flags(ctx, S, sc, idx):
+    """(e) reset_container x record_detectors histories on a used container"""
+    for before in ("recorded", "spoil"):
+        seed = ctx.rng.randint(1, 10 ** 6)
+        calls = gen_flag_calls(ctx.rng, S.T, ctx.scale(4, 7))
+        case = {"kind": "flags", "scene": sc, "before": before, "calls": [list(c) for c in calls], "seed": seed}
+        ctx.case(sample={"op": "flags", **case} if (idx == 0 and before == "recorded") else None,
+                 nontrivial=("flags", idx, before, seed), op="flag-history", before=before,
+                 combos="".join(sorted({f"[reset={int(c[0])},rec={int(c[1])}]" for c in calls})),
+                 bound=sc["bound"], src=sc["src"])
+        ctx.impl_property_evals += 1
+        d = flags_fail(S, before, calls, seed, ctx=ctx, case=case)
+        if d:
+            ctx.violation(case, d)
 
 
 def k_reset(ctx, sc, grad, idx):
@@ -403,6 +529,21 @@ def search(ctx, hints):
                 if d:
                     ctx.violation({"kind": "reuse", "scene": sc, "ops": ops, "seed": 5}, d)
                     return
+            for before in ("recorded", "spoil"):
+                calls = [[r, d, a, b] for r in (True, False) for d in (False, True) for (a, b) in ((0, T), (1, max(1, T - 1)))]
+                case = {"kind": "flags", "scene": sc, "before": before, "calls": calls, "seed": 1}
+                ctx.impl_property_evals += 1
+                d = replay(ctx, case)
+                if d:
+                    # shrink to the single failing call on the used container
+                    for c in calls:
+                        one = dict(case, calls=[c])
+                        d1 = replay(ctx, one)
+                        if d1:
+                            case, d = one, d1
+                            break
+                    ctx.violation(case, d)
+                    return
             for (rd, rr, specials) in ((1, 0, False), (1, 0, True), (0, 0, True), (1, 1, True)):
                 case = {"kind": "reset", "scene": sc, "grad": {"method": "none"}, "seed": 3, "rd": rd, "rr": rr, "specials": specials}
                 ctx.impl_property_evals += 1
@@ -425,6 +566,8 @@ def replay(ctx, inp):
         if 0 <= a <= b <= T:
             return history_fails(Scene(inp["scene"]), sorted({0, a, b, T}) if a != b else [0, a, b, T])
         return None
+    if kind == "flags":
+        return flags_fail(Scene(inp["scene"]), inp["before"], [tuple(c) for c in inp["calls"]], inp.get("seed", 0))
     if kind == "reset":
         j = base.J()
         o, a, cfg = base.build(inp["scene"], inp.get("grad"))
